@@ -995,4 +995,162 @@ theorem teardown_uncollected (env : Env) (hooks : List Hook) (f r1 r2 : Bool) (n
           exact List.mem_append_right _ hi
 
 
+/-! ### a call started in a pass is collected in that pass (the await weights are known up front) -/
+
+/-- Instance `i` comes from a call hook triggered at `m` ABOVE the weight `a` at which it awaits at `m`: it was
+    started after its own await point had been handled ("awaits backwards"). -/
+def StartedAfter (hooks : List Hook) (m : Moment) (a : Int) (i : Inst) : Prop :=
+  ∃ g ∈ hooks, g.id = i.hook ∧ g.isTask = false ∧ g.trig = m ∧ g.await = m ∧ g.aw = a ∧ a < g.tw
+
+instance (hooks : List Hook) (m : Moment) (a : Int) (i : Inst) : Decidable (StartedAfter hooks m a i) := by
+  unfold StartedAfter; infer_instance
+
+theorem getAt_addPending_cases (pend : List ((Moment × Int) × List Inst)) (m m' : Moment) (w w' : Int) (i x : Inst)
+    (hx : x ∈ getAt (addPending pend m' w' i) m w) : x ∈ getAt pend m w ∨ (x = i ∧ m' = m ∧ w' = w) := by
+  induction pend with
+  | nil =>
+    simp only [addPending] at hx
+    by_cases h : m' = m ∧ w' = w
+    · rw [getAt_cons_eq _ _ _ _ (by exact h)] at hx
+      exact Or.inr ⟨by simpa using hx, h⟩
+    · rw [getAt_cons_ne _ _ _ _ (by exact h)] at hx
+      simp [getAt] at hx
+  | cons p ps ih =>
+    simp only [addPending] at hx
+    split at hx
+    · rename_i h
+      by_cases hp : p.1.1 = m ∧ p.1.2 = w
+      · rw [getAt_cons_eq (p.1, p.2 ++ [i]) ps m w hp] at hx
+        rw [getAt_cons_eq _ _ _ _ hp]
+        rcases List.mem_append.mp hx with hx | hx
+        · exact Or.inl hx
+        · exact Or.inr ⟨by simpa using hx, h.1.symm.trans hp.1, h.2.symm.trans hp.2⟩
+      · rw [getAt_cons_ne (p.1, p.2 ++ [i]) ps m w hp] at hx
+        rw [getAt_cons_ne _ _ _ _ hp]; exact Or.inl hx
+    · by_cases hp : p.1.1 = m ∧ p.1.2 = w
+      · rw [getAt_cons_eq _ _ _ _ hp] at hx
+        rw [getAt_cons_eq _ _ _ _ hp]; exact Or.inl hx
+      · rw [getAt_cons_ne _ _ _ _ hp] at hx
+        rw [getAt_cons_ne _ _ _ _ hp]; exact ih hx
+
+theorem getAt_registerAwaits_cases (pend : List ((Moment × Int) × List Inst)) (l : List (Hook × Inst)) (m : Moment) (w : Int) (x : Inst)
+    (hx : x ∈ getAt (registerAwaits pend l) m w) : x ∈ getAt pend m w ∨ ∃ h, (h, x) ∈ l ∧ h.await = m ∧ h.aw = w := by
+  induction l generalizing pend with
+  | nil => exact Or.inl hx
+  | cons hi rest ih =>
+    obtain ⟨h, i⟩ := hi
+    rcases ih _ hx with h1 | ⟨g, hg, hga⟩
+    · rcases getAt_addPending_cases pend m h.await w h.aw i x h1 with h2 | ⟨rfl, h3, h4⟩
+      · exact Or.inl h2
+      · exact Or.inr ⟨h, List.mem_cons_self, h3, h4⟩
+    · exact Or.inr ⟨g, List.mem_cons_of_mem _ hg, hga⟩
+
+/-- a pair of the zip of the hooks with their instances: the instance carries its hook's id -/
+theorem zip_instantiate_id (env : Env) (hs : List Hook) (h : Hook) (x : Inst)
+    (hm : (h, x) ∈ hs.zip (instantiate env hs).2) : h ∈ hs ∧ x.hook = h.id := by
+  induction hs generalizing env with
+  | nil => simp at hm
+  | cons g gs ih =>
+    simp only [instantiate, List.zip_cons_cons, List.mem_cons] at hm
+    rcases hm with hm | hm
+    · have h1 : h = g := (Prod.mk.inj hm).1
+      have h2 : x = mkInst env g := (Prod.mk.inj hm).2
+      subst h1; subst h2
+      exact ⟨List.mem_cons_self, rfl⟩
+    · obtain ⟨a, b⟩ := ih _ hm
+      exact ⟨List.mem_cons_of_mem _ a, b⟩
+
+/-- What is pending at (m, a) after ANOTHER weight `w` of the same moment has been handled: what was pending there
+    before, or an instance of a call triggered at (m, w) that awaits at (m, a). -/
+theorem handleWeight_pending_cases (env : Env) (hooks : List Hook) (m : Moment) (w a : Int) (x : Inst)
+    (hx : x ∈ pendingAt (handleWeight env hooks m w).1 m a) :
+    x ∈ pendingAt env m a ∨
+      ∃ g ∈ hooks, g.id = x.hook ∧ g.isTask = false ∧ g.trig = m ∧ g.tw = w ∧ g.await = m ∧ g.aw = a := by
+  have h3 : x ∈ getAt (phase2 (phase1 env hooks m w).1 m w).1.pending m a := by
+    unfold handleWeight at hx
+    simp only at hx
+    rw [pendingAt_eq_getAt, instantiate_pending] at hx; exact hx
+  have h2 : x ∈ getAt (phase1 env hooks m w).1.pending m a := by
+    unfold phase2 at h3; simp only at h3
+    split at h3
+    · exact h3
+    · simp only at h3
+      by_cases hwa : w = a
+      · subst hwa
+        have := pendingAt_removePending (phase1 env hooks m w).1.pending m w
+        unfold getAt at h3; rw [this] at h3; simp at h3
+      · rw [getAt_removePending_ne _ _ _ _ _ (fun hh => hwa hh.2)] at h3; exact h3
+  unfold phase1 at h2; simp only at h2
+  rcases getAt_registerAwaits_cases _ _ m a x h2 with h1 | ⟨g, hg, hga, hgw⟩
+  · rw [instantiate_pending] at h1; exact Or.inl h1
+  · obtain ⟨hmem, hid⟩ := zip_instantiate_id env _ g x hg
+    have hf := List.mem_filter.mp hmem
+    have hf2 := List.mem_filter.mp hf.1
+    have hcall : g.isTask = false := by simpa using hf.2
+    have htr : g.trig = m ∧ g.tw = w := by simpa using hf2.2
+    exact Or.inr ⟨g, hf2.1, hid.symm, hcall, htr.1, htr.2, hga, hgw⟩
+
+/-- Handling weights ABOVE `a` keeps "whatever is pending at (m, a) was started after (m, a) had been handled". -/
+theorem handleWeights_startedAfter (env : Env) (hooks : List Hook) (m : Moment) (a : Int) (ws : List Int)
+    (hws : ∀ w ∈ ws, a < w) (hP : ∀ i ∈ pendingAt env m a, StartedAfter hooks m a i) :
+    ∀ i ∈ pendingAt (handleWeights env hooks m ws).1 m a, StartedAfter hooks m a i := by
+  induction ws generalizing env with
+  | nil => exact hP
+  | cons w ws ih =>
+    have hstep : ∀ i ∈ pendingAt (handleWeight env hooks m w).1 m a, StartedAfter hooks m a i := by
+      intro i hi
+      rcases handleWeight_pending_cases env hooks m w a i hi with h | ⟨g, hg, hid, hcall, htr, htw, haw, haa⟩
+      · exact hP i h
+      · exact ⟨g, hg, hid, hcall, htr, haw, haa, by rw [htw]; exact hws w List.mem_cons_self⟩
+    simp only [handleWeights]
+    split
+    · exact hstep
+    · exact ih _ (fun w' hw' => hws w' (List.mem_cons_of_mem _ hw')) hstep
+
+/-- A pass that visits `a` and meets no critical failure leaves at (m, a) only calls started after the point. -/
+theorem handleWeights_visits (env : Env) (hooks : List Hook) (m : Moment) (a : Int) (ws : List Int)
+    (hasc : Ascending ws) (ha : a ∈ ws) (h0 : (handleWeights env hooks m ws).2.2 = 0) :
+    ∀ i ∈ pendingAt (handleWeights env hooks m ws).1 m a, StartedAfter hooks m a i := by
+  induction ws generalizing env with
+  | nil => cases ha
+  | cons w ws ih =>
+    simp only [handleWeights] at h0 ⊢
+    split
+    · rename_i hc; rw [if_pos hc] at h0; omega
+    · rename_i hc
+      rw [if_neg hc] at h0
+      by_cases hwa : w = a
+      · subst hwa
+        apply handleWeights_startedAfter _ hooks m w ws (ascending_head_lt hasc)
+        intro i hi; rw [handleWeight_barrier] at hi; cases hi
+      · have ha' : a ∈ ws := by
+          rcases List.mem_cons.mp ha with h | h
+          · exact absurd h.symm hwa
+          · exact h
+        exact ih _ (ascending_tail hasc) ha' h0
+
+/-- The await weight of a call triggered at `m` that awaits at `m` is one of the weights of the pass. -/
+theorem mem_weightsFor_of_await (env : Env) (hooks : List Hook) (m : Moment) (p : Int → Bool) (h : Hook)
+    (hmem : h ∈ hooks) (hcall : h.isTask = false) (htrig : h.trig = m) (hawait : h.await = m) (hp : p h.aw = true) :
+    h.aw ∈ weightsFor env hooks m p := by
+  unfold weightsFor
+  simp only
+  rw [List.mem_filter]
+  refine ⟨?_, hp⟩
+  rw [mem_sortDedup]
+  apply List.mem_append_left
+  apply List.mem_append_right
+  rw [List.mem_map]
+  exact ⟨h, List.mem_filter.mpr ⟨hmem, by simp [htrig, hcall, hawait]⟩, rfl⟩
+
+/-- **Awaited where declared, within the pass**: a call triggered at `m` whose await names `m` with a weight of
+    this pass has its await point visited by the pass, so — unless a critical failure stopped the pass — all
+    that is left pending at that point afterwards are calls that were started above it. -/
+theorem handleHooks_await_same_moment (env : Env) (hooks : List Hook) (m : Moment) (p : Int → Bool) (h : Hook)
+    (hmem : h ∈ hooks) (hcall : h.isTask = false) (htrig : h.trig = m) (hawait : h.await = m) (hp : p h.aw = true)
+    (h0 : (handleHooks env hooks m p).2.2 = 0) :
+    ∀ i ∈ pendingAt (handleHooks env hooks m p).1 m h.aw, StartedAfter hooks m h.aw i :=
+  handleWeights_visits env hooks m h.aw _ (weightsFor_ascending env hooks m p).1
+    (mem_weightsFor_of_await env hooks m p h hmem hcall htrig hawait hp) h0
+
 end EnvM
